@@ -1334,13 +1334,13 @@ class Vector():
 		if isinstance(other, Vector):
 			if not self._dtype.nullable and not other.schema().nullable and self._dtype.kind != other.schema().kind:
 				raise SerifTypeError("Cannot concatenate two typesafe Vectors of different types")
-			return Vector(self._underlying + other._underlying,
-				dtype=self._dtype)
+			values = self._underlying + other._underlying
+			return Vector(values, dtype=infer_dtype(values) if values else self._dtype)
 		if isinstance(other, Iterable) and not isinstance(other, (str, bytes, bytearray)):
-			return Vector(self._underlying + tuple(other),
-				dtype=self._dtype)
-		return Vector(self._underlying + (other,),
-				dtype=self._dtype)
+			values = self._underlying + tuple(other)
+			return Vector(values, dtype=infer_dtype(values) if values else self._dtype)
+		values = self._underlying + (other,)
+		return Vector(values, dtype=infer_dtype(values))
 
 
 	def __rshift__(self, other):
